@@ -209,6 +209,10 @@ def make_history(base, cfg, r, n_commits=None, kind=None):
                 tables[f"e{k}"] = (["z"], False)
             elif step == 1:
                 con.execute(f"CREATE INDEX di{k} ON t0 ({cols[-1]})")
+                # the same transaction changes rows of a one-page table (its root page is the only page rewritten)
+                for dt in [t for t in tables if t.startswith("d")][:1]:
+                    con.execute(f"INSERT INTO {dt} VALUES (?, ?)", (k + 100, f"with-ddl-{k}"))
+                    con.execute(f"UPDATE {dt} SET b = 'changed-with-ddl' WHERE a = 1")
             elif step == 2:
                 con.execute("ALTER TABLE t0 ADD COLUMN added%d TEXT" % k)
                 tables["t0"] = (tables["t0"][0] + ["added%d" % k], alias)
